@@ -293,7 +293,7 @@ where
                     Expr::Ident(ident.clone())
                 }
             }
-            JSXElementName::JSXMemberExpr(expr) => Expr::JSXMember(expr.clone()),
+            JSXElementName::JSXMemberExpr(expr) => jsx_member_expr_to_expr(expr),
             JSXElementName::JSXNamespacedName(name) => Expr::JSXNamespacedName(name.clone()),
         }
     }
@@ -1553,6 +1553,21 @@ where
             Expr::Lit(Lit::Str(quote_str!(name.sym.clone()))),
         );
     }
+}
+
+/// `<a.b.c />` and `<this.x />` are ordinary member expressions.
+fn jsx_member_expr_to_expr(JSXMemberExpr { span, obj, prop }: &JSXMemberExpr) -> Expr {
+    Expr::Member(MemberExpr {
+        span: *span,
+        obj: Box::new(match obj {
+            JSXObject::Ident(ident) if ident.sym == "this" => {
+                Expr::This(ThisExpr { span: ident.span })
+            }
+            JSXObject::Ident(ident) => Expr::Ident(ident.clone()),
+            JSXObject::JSXMemberExpr(member) => jsx_member_expr_to_expr(member),
+        }),
+        prop: MemberProp::Ident(prop.clone()),
+    })
 }
 
 fn inject_define_component_option(call: &mut CallExpr, name: &'static str, value: Expr) {
